@@ -214,7 +214,7 @@ func genC11(t *rapid.T) *Case {
 		default:
 			return Op{K: "add_realm", S: nA, URI: "r2", N: 555}
 		}
-	}), 1, 30).Draw(t, "ops")
+	}), minHistory(t, 30), 30).Draw(t, "ops")
 	c.Ops = append(c.Ops, ops...)
 	if nA >= 3 && pct(t, 35, "latejoin") {
 		// a session of A that joins late - possibly while B is being removed
